@@ -49,7 +49,7 @@ def check_case(case, ctr):
                                   repro=case.py_ctx() + 'print(c.lattice.graphviz().source)\n'))
 
     olabs, plabs = ref.object_labels(), ref.property_labels()
-    name = {i: f'c{al[i].index}' for i in range(k)}
+    name = {i: al[i].index for i in range(k)}       # nodes are named by the index
     exp_nodes = sorted(name.values())
     exp_edges = sorted((name[i], name[j]) for i in range(k) for j in ref.lower_covers(i))
     if k == 1:
@@ -75,6 +75,12 @@ def check_case(case, ctr):
         except dotparse.DotError as e:
             bad('dot-syntax', 'parseable statements', str(e), callback=cbname)
             continue
+        try:
+            stmts = [(s[0], node_index(s[1])) + ((node_index(s[2]),) + s[3:] if s[0] == 'edge'
+                                                 else s[2:]) for s in stmts]
+        except ValueError as e:
+            bad('node-named-by-index', 'a name carrying the concept index', str(e), callback=cbname)
+            continue
         nodes = sorted(s[1] for s in stmts if s[0] == 'node')
         if nodes != exp_nodes:
             bad('nodes', exp_nodes, nodes, callback=cbname)
@@ -99,6 +105,15 @@ def check_case(case, ctr):
             if sorted(seen_args) != exp_args:
                 bad('callback-input', exp_args, sorted(seen_args), callback=cbname)
     return V
+
+
+def node_index(name):
+    """The concept index a node name carries (its only / trailing number)."""
+    import re
+    mo = re.fullmatch(r'\D*(\d+)', name)
+    if mo is None:
+        raise ValueError(f'node name {name!r} does not carry an index')
+    return int(mo.group(1))
 
 
 def run_shard(shard, tier):
